@@ -195,19 +195,21 @@ def thriftSkipScalar (ty : Nat) (bs : List Nat) : Option (Except Err (List Nat))
 /-- the field loop of a struct reader that skips every field (`read_field_begin(last_field_id)`,
 `skip`, `last_field_id = id`) until the stop byte.  `fuel` = number of bytes: every field
 header consumes one (see `thrift_field_begin_progress`).  Returns the ids seen, or `none`
-when a container type is met. -/
-def thriftSkipFields : Nat → Int → List Nat → Option (Except Err (List Int × List Nat))
+when a container type is met or when the id is one the enclosing struct knows (`known`):
+such a field is parsed by its own reader, not skipped. -/
+def thriftSkipFields (known : Int → Bool) : Nat → Int → List Nat → Option (Except Err (List Int × List Nat))
   | 0, _, _ => some (.error .eof)
   | fuel + 1, lastId, bs =>
     match thriftReadFieldBegin lastId bs with
     | .error e => some (.error e)
     | .ok (ty, id, rest) =>
       if ty = THRIFT_FIELD_STOP then some (.ok ([], rest))
+      else if known id then none
       else match thriftSkipScalar ty rest with
         | none => none
         | some (.error e) => some (.error e)
         | some (.ok rest') =>
-          match thriftSkipFields fuel id rest' with
+          match thriftSkipFields known fuel id rest' with
           | none => none
           | some (.error e) => some (.error e)
           | some (.ok (ids, r)) => some (.ok (id :: ids, r))
